@@ -593,9 +593,9 @@ func Exec(ops []hx.T) (obs []any, nontrivial bool) {
 				case ch == nil:
 				case o.Int(0) == 0:
 					close(ch)
-				case o.Int(0) == 1:
-					cur.f.send(clientv3.WatchResponse{CompactRevision: 5})
 				default:
+					// a cancel response.  (A COMPACTION error makes the provider list the key space
+					// again; that needs a key space to list and is driven by the scripted lives, boot.go)
 					cur.f.send(clientv3.WatchResponse{Canceled: true})
 				}
 				// that stream is over; the provider's next Watch call installs a new channel
@@ -629,6 +629,16 @@ func Exec(ops []hx.T) (obs []any, nontrivial bool) {
 			i++
 		case "OSelfCluster":
 			obs = append(obs, selfCluster(o.Int(0), o.Int(1), o.List(2)))
+			i++
+		case "OBoot":
+			// a whole provider life on the scripted key space (boot.go)
+			if cur != nil {
+				cur.end()
+				cur = nil
+			}
+			ob, nt := execBoot(o)
+			obs = append(obs, ob)
+			nontrivial = nontrivial || nt
 			i++
 		case "OStress":
 			ok, differ := stress(hx.Terms(o.Args[0]), hx.Terms(o.Args[1]))
